@@ -2,6 +2,7 @@ package simplecue
 
 import (
 	"fmt"
+	"sort"
 	"strings"
 
 	"cuelang.org/go/cue"
@@ -121,13 +122,27 @@ func (resolver *referenceResolver) packageForToken(source cueast.Node, defaultPa
 		return defaultPackage
 	}
 
-	for importPath, pkg := range resolver.librariesMap {
+	// several library import paths can be contained in the file name (nested
+	// paths): the most specific one wins, independently of map iteration order.
+	matches := make([]string, 0, len(resolver.librariesMap))
+	for importPath := range resolver.librariesMap {
 		if strings.Contains(filename, importPath) {
-			return pkg
+			matches = append(matches, importPath)
 		}
 	}
 
-	return defaultPackage
+	sort.Slice(matches, func(i, j int) bool {
+		if len(matches[i]) != len(matches[j]) {
+			return len(matches[i]) > len(matches[j])
+		}
+		return matches[i] < matches[j]
+	})
+
+	if len(matches) == 0 {
+		return defaultPackage
+	}
+
+	return resolver.librariesMap[matches[0]]
 }
 
 func (resolver *referenceResolver) resolveImportAlias(alias string) string {
